@@ -531,6 +531,22 @@ impl InstExec {
                 format!("{:?}", ds.port_state)
             })
             .collect();
+        // the master each Slave port is bound to (verif hook; not part of any observable data set)
+        let rms: Vec<String> = self
+            .ports
+            .iter()
+            .map(|s| {
+                let rm = match s {
+                    Slot::Running(p) => p.verif_remote_master(),
+                    Slot::InBmca(p) => p.verif_remote_master(),
+                    Slot::Taken => unreachable!(),
+                };
+                match rm {
+                    Some(id) => pid_str(&id.clock_identity.0, id.port_number),
+                    None => "-".to_string(),
+                }
+            })
+            .collect();
         let cur = inst.current_ds(None);
         let par = inst.parent_ds();
         let tp = inst.time_properties_ds();
@@ -538,7 +554,7 @@ impl InstExec {
         let df = inst.default_ds();
         let path = if pt.list.is_empty() { "-".to_string() } else { pt.list.iter().map(|c| hex(&c.0)).collect::<Vec<_>>().join(",") };
         format!(
-            "S {} | D {} {} {} {} {} {} {} {} | T {} | PT {} {} | DF {} {} {} {} {}",
+            "S {} | D {} {} {} {} {} {} {} {} | T {} | PT {} {} | DF {} {} {} {} {} | RM {}",
             if sts.is_empty() { "-".to_string() } else { sts.join(",") },
             cur.steps_removed,
             pid_str(&par.parent_port_identity.clock_identity.0, par.parent_port_identity.port_number),
@@ -555,7 +571,8 @@ impl InstExec {
             df.clock_quality.clock_accuracy.to_primitive(),
             df.clock_quality.offset_scaled_log_variance,
             df.slave_only as u8,
-            df.number_ports
+            df.number_ports,
+            if rms.is_empty() { "-".to_string() } else { rms.join(",") }
         )
     }
 
@@ -862,7 +879,13 @@ pub fn fwd_from_text(item: &str) -> Option<ForwardedTLV<'static>> {
     t.extend_from_slice(&value);
     // a zero-length TLV cannot be last (TlvSet::deserialize rejects it): append a non-propagating pad TLV
     frame.extend_from_slice(&t);
-    frame.extend_from_slice(&[0x80, 0x08, 0x00, 0x02, 0, 0]);
+    if value.len() % 2 == 0 {
+        frame.extend_from_slice(&[0x80, 0x08, 0x00, 0x02, 0, 0]);
+    } else {
+        // a TLV with an odd number of value octets is never forwarded by a port (the suffix holding it is refused), so
+        // a queue cannot hold one; should a port hand one out after all, it is re-created here next to a second odd one
+        frame.extend_from_slice(&[0x80, 0x08, 0x00, 0x01, 0]);
+    }
     let total = frame.len();
     frame[2] = (total >> 8) as u8;
     frame[3] = total as u8;
